@@ -1087,7 +1087,7 @@ static int vc_motion(int cmd)
 	o1 = ren_noeol(lbuf_get(xb, r1), o1);
 	if (!lnmode && o2 > lbuf_eol(xb, r2))
 		o2 = lbuf_eol(xb, r2);
-	if (!lnmode && strchr("fFtTeE%", mv))
+	if (!lnmode && strchr("fFtT;,eE%", mv))
 		if (o2 < lbuf_eol(xb, r2))
 			o2 = ren_noeol(lbuf_get(xb, r2), o2) + 1;
 	if (cmd == 'y')
